@@ -21,7 +21,7 @@ ID = "C26"
 LEVEL = "exploration"
 RULE = (
   "case=(kind,seed,integrator,invdiscrete): kind 'free' = constraint-free generated tree with springs/dampers/gravcomp/fluid/"
-  "tendons/actuators (ctrl inside ctrlrange, no muscles) and random qfrc_applied/xfrc_applied; 'soft' = plus limits, "
+  "tendons/actuators (ctrl inside and far outside ctrlrange, no muscles) and random qfrc_applied/xfrc_applied; 'soft' = plus limits, "
   "equalities, frictionloss; 'contact' = free bodies resting on a plane; 3 worlds with different random states. "
   "Non-trivial: nv>=2 and both oracles evaluated on >=1 world; distinct by hash(xml, flags, states)."
 )
@@ -34,9 +34,9 @@ ASSUMPTIONS = [
   "differential: MuJoCo 3.13 mj_inverse on the same state and the same qacc; noise floor from +-2ulp probes of qpos/qvel",
   "INVDISCRETE with the implicit integrator is rejected by MJWarp (NotImplementedError) and with RK4 by both engines: "
   "counted as rejected, not as findings",
-  "controls are kept inside ctrlrange and muscles are excluded under INVDISCRETE+implicitfast vs MuJoCo (known C08 findings "
-  "implicit:actuator_vel_derivative_* would otherwise be re-reported here); worlds where MuJoCo 3.13 applies its extra "
-  "implicit treatment of free bodies are skipped for oracle II",
+  "muscles are excluded (the open C08 finding implicit:actuator_vel_derivative_muscle_gain_missing would otherwise be "
+  "re-reported through the discrete->continuous conversion); worlds where MuJoCo 3.13 applies its extra implicit treatment "
+  "of free bodies are skipped for oracle II",
 ]
 BUDGET = {"quick": 240, "thorough": 1200}
 
@@ -119,13 +119,6 @@ def sample_states(mjm, rng, kind):
       st["qpos"] = np.array(mjm.qpos0, dtype=np.float32)
       st["qpos"][2::7] -= rng.uniform(0, 0.005, size=st["qpos"][2::7].shape).astype(np.float32)
       st["xfrc_applied"] = (st["xfrc_applied"] * 0.2).astype(np.float32)
-    # controls inside their range (see ASSUMPTIONS)
-    ctrl = st["ctrl"].astype(np.float64)
-    for i in range(mjm.nu):
-      if mjm.actuator_ctrllimited[i]:
-        lo, hi = mjm.actuator_ctrlrange[i]
-        ctrl[i] = rng.uniform(lo, hi)
-    st["ctrl"] = ctrl.astype(np.float32)
     st["qacc_warmstart"] = np.zeros(mjm.nv, np.float32)
     if int(mjm.opt.integrator) == int(mujoco.mjtIntegrator.mjINT_IMPLICITFAST):
       _step.neutralise_lone_free(mjm, st)
@@ -201,8 +194,8 @@ def run_case(case):
     if qacc_after[w][:nv].tobytes() != qacc_in[w][:nv].tobytes():
       rec.viol("inverse_changes_qacc", f"inverse() did not restore d.qacc (invdiscrete={disc}, {integ}) world {w}")
     # ---- I round trip
-    if not np.all(np.isfinite(fwd["qacc"][w])) or np.abs(fwd["qacc"][w]).max(initial=0) > 1e6:
-      rec.inconcl("forward diverged")
+    if not np.all(np.isfinite(fwd["qacc"][w])) or np.abs(fwd["qacc"][w]).max(initial=0) > 1e6 or not np.all(np.isfinite(qacc_in[w])) or np.abs(qacc_in[w]).max(initial=0) > 1e6:
+      rec.inconcl("forward / step diverged")
       continue
     if ovf & (_step.OVF_CAP | _step.OVF_ITER):
       rec.count("worlds_ungated_overflow_or_iterations")
